@@ -153,7 +153,9 @@ CLAIMS["C01"] = (
     "2-8 symbolic bytes, or an empty datagram) followed by silence, the listed query entry points return a value: every "
     "panic, unwrap, out-of-bounds index, arithmetic overflow and loop bound is a proof obligation discharged by CBMC.",
     "Trusted: hooks H2-H4, listed stubs. Bounded hard: replies <= ~18 bytes, one hostile datagram; the text-splitting "
-    "parsers (GameSpy 1/2, Quake, Unreal 2 lists, Java JSON) are only covered for empty replies in the quick tier.",
+    "parsers (GameSpy 1/2, Quake 1/2 bodies, Unreal 2 lists) are only covered for empty replies and a few concrete hostile "
+    "instances; the Java entry point is not covered at all (no harness reaches a verdict: C17 decides its codecs, C09 its "
+    "requests). The thorough tier equals the quick tier: every larger harness ran out of time or memory.",
     "DESIGN.md §4 C01")
 
 CLAIMS["C13"] = (
